@@ -256,8 +256,20 @@ def coq_term(case, obs):
     if case['kind'] == 'groupby':
         if 'raised' in obs:
             return 'MCRaised'
-        return muxlib.coq_muxcase([['group', case['km'], case['ast']]], obs['trace'], obs)
-    return muxlib.coq_muxcase(case['ast'], case['trace'], obs)
+        main = muxlib.coq_muxcase([['group', case['km'], case['ast']]], obs['trace'], obs)
+    else:
+        main = muxlib.coq_muxcase(case['ast'], case['trace'], obs)
+    if main in ('MCRaised', 'MCSkip'):
+        return main
+    # the plain-observable model (Mux/Plain.v) is tied to the real plain runs of the same pipeline
+    from harness.pyval import coq_val
+    runs = []
+    for items, p in zip(obs.get('groups', []), obs.get('plain', [])):
+        if 'raised' not in p and p['end'] == 'completed':
+            runs.append('([%s], [%s])' % ('; '.join(coq_val(x) for x in items), '; '.join(coq_val(x) for x in p['items'])))
+    if not runs:
+        return main
+    return 'MCAnd (%s) (MCPlain %s [%s])' % (main, muxlib.coq_pipe(case['ast']), '; '.join(runs))
 
 
 def coq_model_expr(case):
@@ -266,3 +278,10 @@ def coq_model_expr(case):
         t = [['c', [0]]] + [['n', [0], x] for x in items] + [['d', [0]]]
         return 'mux_model %s %s' % (muxlib.coq_pipe([['group', case['km'], case['ast']]]), muxlib.coq_trace(t))
     return 'mux_model %s %s' % (muxlib.coq_pipe(case['ast']), muxlib.coq_trace(case['trace']))
+
+
+CLAIM = {
+    'text': "Theorems (Coq): for every pipeline of the modelled dual-mode operators and every item list, the per-key local machine emits over one lifetime exactly what the pipeline computes on a plain observable (plain_pipe, by structural induction over the pipeline: composition of list functions, so any depth); for EVERY pipeline of the grammar and every well-formed keyed trace (any keys, interleaving, reused slots) the slot-level machine emits during a key's lifetime the timed output of that local machine on the lifetime's items alone (master refinement). Both models are tied to the code: multiplexed run vs Mux model and plain run vs Plain model, on random typed pipelines (depth 1-6, nested tee_map, 3 joins) x 1-4 interleaved groups; model-free oracle: mux result per group == plain result. tee_map plain/mux join equality, formal.variance/stddev and batch (terminator) are covered by the oracle and the mux model only, not by plain_pipe.",
+    'note': 'Trusted: Coq kernel+VM; hand-written models (Mux/*.v, Plain.v) tied by correspondence; RxPY plain operators and synchronous delivery modelled not verified; preconditions of the property (typed accumulators, tee_safe, non-empty groups for first/last/mean) are generator constraints and the `fits` guard of plain_pipe.',
+    'technique': 'Coq proof (forward-simulation refinement of a slot-level model by per-key local machines, list-level induction) + vm_compute correspondence against /repo + model-free oracle',
+}
